@@ -7,6 +7,7 @@ import (
 	"strings"
 
 	"github.com/freeconf/yang/meta"
+	"github.com/freeconf/yang/node"
 	"github.com/freeconf/yang/val"
 	"verif/internal/eng"
 )
@@ -179,7 +180,7 @@ func c02Family(name string) c02Fam {
 	case "leafref":
 		return c02Fam{"leafref", []string{`path "/tgt/k";`, ``, ``, ``}, `container tgt { leaf k { type uint16; } }`, []string{"1", "2", "3", "4", "5"}}
 	case "identityref":
-		return c02Fam{"identityref", []string{`base b1;`, ``, ``, ``}, `identity b1; identity d1 { base b1; } identity d2 { base d1; } identity d3 { base d2; } identity other; identity multi { base b1; base other; }`, []string{"d1", "d2", "d3", "multi", "d1"}}
+		return c02Fam{"identityref", []string{`base b1;`, ``, ``, ``}, `identity b1; identity d1 { base b1; } identity d2 { base d1; } identity d3 { base d2; } identity e1 { base b1; } identity e2 { base e1; } identity e3 { base e2; } identity e4 { base e1; } identity f1 { base b1; } identity f2 { base f1; } identity other; identity o1 { base other; } identity o2 { base o1; } identity multi { base b1; base other; }`, []string{"d1", "d2", "d3", "multi", "d1"}}
 	case "boolean":
 		return c02Fam{"boolean", []string{``, ``, ``, ``}, "", []string{"true", "false", "true", "false", "true"}}
 	}
@@ -367,7 +368,7 @@ func c02Build(c c02Case) (main string, mods map[string]string, paths []string, e
 	case "leafref":
 		exp.resolved = "uint16"
 	case "identityref":
-		exp.ids = "b1{d1,d2,d3,multi}"
+		exp.ids = "b1{d1,d2,d3,e1,e2,e3,e4,f1,f2,multi} accepts[d1,d2,d3,e1,e2,e3,e4,f1,f2,multi]"
 	}
 	if c.List {
 		exp.format += "-list"
@@ -437,6 +438,34 @@ func c02Observe(l meta.Leafable) c02Expect {
 			bs = append(bs, b.Ident()+"{"+strings.Join(cl, ",")+"}")
 		}
 		o.ids = strings.Join(bs, ";")
+		// what a write accepts: every identity of the module is offered to the library's conversion
+		if mod := meta.RootModule(l); mod != nil {
+			var acc []string
+			offer := func(name, prefix string) {
+				for _, text := range []string{name, prefix + ":" + name} {
+					var v interface{} = text
+					if t.Format().IsList() {
+						v = []string{text}
+					}
+					if _, err := node.NewValue(t, v); err == nil {
+						acc = append(acc, name)
+						return
+					}
+				}
+			}
+			for name := range mod.Identities() {
+				offer(name, mod.Prefix())
+			}
+			for prefix, imp := range mod.Imports() {
+				if imp.Module() != nil {
+					for name := range imp.Module().Identities() {
+						offer(name, prefix)
+					}
+				}
+			}
+			sort.Strings(acc)
+			o.ids += " accepts[" + strings.Join(acc, ",") + "]"
+		}
 	}
 	o.fd = t.FractionDigits()
 	o.hasDef = l.HasDefault()
@@ -653,7 +682,37 @@ func c02Special(res *eng.Result, ss *sigSet) {
 			return l.Type().Format().String()
 		}},
 	}
-	want := map[string]string{"leafref/relative": "uint8", "leafref/absolute": "uint8", "leafref/through-list": "int64", "leafref/to-leafref": "uint8", "leafref/in-grouping-used-twice": "uint8",
+	enumSet := func(t *meta.Type) string {
+		var es []string
+		for _, e := range t.Enum() {
+			es = append(es, fmt.Sprintf("%s=%d", e.Label, e.Id))
+		}
+		sort.Strings(es)
+		return strings.Join(es, ",")
+	}
+	bitSet := func(t *meta.Type) string {
+		var bs []string
+		for _, b := range t.Bits() {
+			bs = append(bs, fmt.Sprintf("%s@%d", b.Ident(), b.Position))
+		}
+		sort.Strings(bs)
+		return strings.Join(bs, ",")
+	}
+	const enumTd = `typedef e { type enumeration { enum zero; enum five { value 5; } enum six; enum two { value 2; } } } `
+	const bitsTd = `typedef bt { type bits { bit a; bit f { position 5; } bit g; bit b { position 2; } } } `
+	cases = append(cases,
+		// RFC 7950 9.6.4.2 / 9.7.4.2: a derived type may restrict the set; names keep the value / position of the base type
+		tc{"enum-restricted/leaf", hdr + enumTd + `leaf x { type e { enum six; enum two; } } leaf y { type e; } }`, nil, "x", func(l meta.Leafable) string { return enumSet(l.Type()) }},
+		tc{"enum-restricted/sibling-keeps-all", hdr + enumTd + `leaf x { type e { enum six; enum two; } } leaf y { type e; } }`, nil, "y", func(l meta.Leafable) string { return enumSet(l.Type()) }},
+		tc{"enum-restricted/two-levels", hdr + enumTd + `typedef e2 { type e { enum five; enum six; enum two; } } leaf x { type e2 { enum two; enum five; } } }`, nil, "x", func(l meta.Leafable) string { return enumSet(l.Type()) }},
+		tc{"enum-restricted/leaf-list", hdr + enumTd + `leaf-list x { type e { enum six; } } }`, nil, "x", func(l meta.Leafable) string { return enumSet(l.Type()) }},
+		tc{"bits-restricted/leaf", hdr + bitsTd + `leaf x { type bt { bit g; bit b; } } leaf y { type bt; } }`, nil, "x", func(l meta.Leafable) string { return bitSet(l.Type()) }},
+		tc{"bits-restricted/sibling-keeps-all", hdr + bitsTd + `leaf x { type bt { bit g; bit b; } } leaf y { type bt; } }`, nil, "y", func(l meta.Leafable) string { return bitSet(l.Type()) }},
+		tc{"bits-restricted/two-levels", hdr + bitsTd + `typedef bt2 { type bt { bit f; bit g; bit b; } } leaf x { type bt2 { bit g; } } }`, nil, "x", func(l meta.Leafable) string { return bitSet(l.Type()) }},
+	)
+	want := map[string]string{"enum-restricted/leaf": "six=6,two=2", "enum-restricted/sibling-keeps-all": "five=5,six=6,two=2,zero=0", "enum-restricted/two-levels": "five=5,two=2", "enum-restricted/leaf-list": "six=6",
+		"bits-restricted/leaf": "b@2,g@6", "bits-restricted/sibling-keeps-all": "a@0,b@2,f@5,g@6", "bits-restricted/two-levels": "g@6",
+		"leafref/relative": "uint8", "leafref/absolute": "uint8", "leafref/through-list": "int64", "leafref/to-leafref": "uint8", "leafref/in-grouping-used-twice": "uint8",
 		"identityref/two-bases": "b1,b2", "identityref/cross-module-base": "rb:local,rd", "typedef-default/explicit-leaf-wins": "ld/lu", "typedef-default/union-member-default-not-inherited": "false", "typedef/shadowing-inner-scope-wins": "int32"}
 	for _, t := range cases {
 		m, err, fr, msg := c11Load(t.text, nil, t.mods)
